@@ -470,3 +470,63 @@ fn futures_noop_waker() -> core::task::Waker {
     static VTABLE: RawWakerVTable = RawWakerVTable::new(clone, noop, noop, noop);
     unsafe { Waker::from_raw(RawWaker::new(core::ptr::null(), &VTABLE)) }
 }
+
+/// Result of one watermarked receive request (`RxDriver::poll_rx`)
+#[derive(Clone, Copy, Debug, Default)]
+pub struct RxPoll {
+    /// bytes handed to the application by this request
+    pub consumed: usize,
+    /// bytes still buffered afterwards (`response.bytes.available`)
+    pub available: usize,
+    /// the request stored the waker: the reader is parked until it is woken
+    pub will_wake: bool,
+    /// 0 Open, 1 Finishing, 2 Finished, 3 Resetting, 4 Reset; 9 = the request failed
+    pub status: u8,
+}
+
+impl RxDriver {
+    /// One `poll_request` of the receiving half with the application's low / high watermark and
+    /// the caller's waker as task context (so that the request can park the reader); up to 16
+    /// chunks are taken.
+    pub fn poll_rx(
+        &mut self,
+        sid: u64,
+        low_watermark: usize,
+        high_watermark: usize,
+        waker: &core::task::Waker,
+    ) -> RxPoll {
+        let id = StreamId::from_varint(Self::vi(sid));
+        let mut chunks: [bytes::Bytes; 16] = Default::default();
+        let mut request = ops::Request::default();
+        request
+            .receive(&mut chunks)
+            .with_low_watermark(low_watermark)
+            .with_high_watermark(high_watermark);
+        let cx = Context::from_waker(waker);
+        let mut ctx = ConnectionApiCallContext::from_wakeup_handle(&self.handle);
+        match self
+            .manager
+            .poll_request(id, &mut ctx, &mut request, Some(&cx))
+        {
+            Ok(response) => {
+                let rx = response.rx.expect("rx response");
+                RxPoll {
+                    consumed: rx.bytes.consumed,
+                    available: rx.bytes.available,
+                    will_wake: rx.will_wake,
+                    status: match rx.status {
+                        ops::Status::Open => 0,
+                        ops::Status::Finishing => 1,
+                        ops::Status::Finished => 2,
+                        ops::Status::Resetting => 3,
+                        ops::Status::Reset(_) => 4,
+                    },
+                }
+            }
+            Err(_) => RxPoll {
+                status: 9,
+                ..Default::default()
+            },
+        }
+    }
+}
